@@ -6,7 +6,7 @@
    restricted to the retained terms; and the result passes the executable statements of C01, C02
    and C03 again.  The theorems say what its reference functions mean. *)
 From Coq Require Import Relations.
-From HpoV Require Import Gen.Consts Model.Base Model.Group Model.Onto Model.Query Model.SubOnt Run.World Run.C01 Run.C11 Run.C14 Proofs.C01P Proofs.C14P Proofs.ClosureP Proofs.DistP Proofs.SubP Proofs.QgoodP Proofs.SubLinksP Proofs.AcyclicP Proofs.RecordsP Proofs.AnnotP Proofs.SubAnnotP Proofs.SubDistP.
+From HpoV Require Import Gen.Consts Model.Base Model.Group Model.Onto Model.Query Model.SubOnt Run.World Run.C01 Run.C11 Run.C14 Proofs.C01P Proofs.C14P Proofs.ClosureP Proofs.DistP Proofs.SubP Proofs.QgoodP Proofs.SubLinksP Proofs.AcyclicP Proofs.RecordsP Proofs.AnnotP Proofs.SubAnnotP Proofs.SubDistP Proofs.SubTotalP.
 
 Theorem C14_retained_on_shortest_chain : forall ts n l t root dl,
   sd n ts l root = Some dl ->
@@ -109,6 +109,17 @@ Theorem C14_model_acceptance : forall o root leaves, qgood o -> acyclic (o_arena
   exists ids, sub_ids o root leaves = Ok ids.
 Proof. exact sub_ids_accepts. Qed.
 
+(* THE WHOLE CALL RETURNS: for an acyclic source with exact caches, leaves that are terms of the source and
+   are the root or below it, and an information-content function defined on all counts up to the
+   source's record counts (the real one is: they are at most u16::MAX whenever the source was built),
+   sub_ontology returns an ontology — every stage has enough fuel and no lookup fails *)
+Theorem C14_model_sub_ontology_returns : forall icf o root leaves, qgood o -> acyclic (o_arena o) ->
+  (forall l, In l leaves -> In l (ar_keys (o_arena o))) ->
+  (forall l, In l leaves -> l = t_id root \/ anc (o_arena o) l (t_id root)) ->
+  (forall k N n, N <= Nlen (o_records k o) -> n <= N -> exists v, icf N n = Ok v) ->
+  exists o', sub_ontology icf o root leaves = Ok o'.
+Proof. exact sub_ontology_total. Qed.
+
 Print Assumptions C14_retained_on_shortest_chain.
 Print Assumptions C14_result_closure_exact.
 Print Assumptions C14_model_retained_set.
@@ -120,3 +131,4 @@ Print Assumptions C14_model_leaf_distance_kept.
 Print Assumptions C14_model_contains_leaves_and_root.
 Print Assumptions C14_model_leaf_collection_is_a_set.
 Print Assumptions C14_model_acceptance.
+Print Assumptions C14_model_sub_ontology_returns.
